@@ -125,6 +125,14 @@ pub enum GenericIfData {
 // tokenize()
 // Tokenize the text of the a2ml section
 fn tokenize_a2ml(filename: &Filename, input: &str) -> Result<(Vec<TokenType>, String), String> {
+    tokenize_a2ml_nested(filename, input, 0)
+}
+
+fn tokenize_a2ml_nested(
+    filename: &Filename,
+    input: &str,
+    include_depth: usize,
+) -> Result<(Vec<TokenType>, String), String> {
     let mut amltokens = Vec::<TokenType>::new();
     let input_bytes = input.as_bytes();
     let datalen = input_bytes.len();
@@ -169,7 +177,8 @@ fn tokenize_a2ml(filename: &Filename, input: &str) -> Result<(Vec<TokenType>, St
         } else if input_bytes[bytepos..].starts_with(b"/include") {
             // copy any uncopied text before the include token
             complete_string.push_str(&input[copypos..startpos]);
-            let (mut tokresult, incfile_text) = tokenize_include(filename, input, &mut bytepos)?;
+            let (mut tokresult, incfile_text) =
+                tokenize_include(filename, input, &mut bytepos, include_depth)?;
             complete_string.push_str(&incfile_text);
             copypos = bytepos;
 
@@ -255,6 +264,7 @@ fn tokenize_include(
     filename: &Filename,
     input: &str,
     bytepos: &mut usize,
+    include_depth: usize,
 ) -> Result<(Vec<TokenType>, String), String> {
     let input_bytes = input.as_bytes();
     let datalen = input_bytes.len();
@@ -312,9 +322,16 @@ fn tokenize_include(
 
     // check if incname is an accessible file
     let incpathref = Path::new(&incfilename);
+    if include_depth >= tokenizer::MAX_INCLUDE_DEPTH {
+        // a file that includes itself would otherwise recurse until the stack overflows
+        return Err(format!(
+            "include files are nested too deeply while reading {}",
+            incpathref.display()
+        ));
+    }
     let loadresult = loader::load(incpathref);
     if let Ok(incfiledata) = loadresult {
-        tokenize_a2ml(&Filename::from(incpathref), &incfiledata)
+        tokenize_a2ml_nested(&Filename::from(incpathref), &incfiledata, include_depth + 1)
     } else {
         Err(format!("failed reading {}", incpathref.display()))
     }
